@@ -15,6 +15,9 @@
 // Reuses vInitServer, vNewSession, vSess, vWaitQuiet, vKV, vNum, vB2s of zz_verif_topic_test.go /
 // zz_verif_lines_test.go.  Nothing is written to /repo.
 //
+// "note <s> ...": a {note what=kp|kpa|read|recv} through Session.note -> Topic.handleNoteBroadcast -> the {info}
+// branch of broadcastToSessions; the {info} frames every connection received are printed.
+//
 // "clog <s>": the connection stops reading (the driver's drain loop of that vSess is stopped through
 // the session's own stop channel) and its send buffer is filled to capacity with dummy byte frames, so
 // that every Session.queueOut on it takes the `default:` branch - the real "connection stuck" path of
@@ -164,7 +167,12 @@ func (sc *fScn) frame(m *ServerComMessage, id string) string {
 		return fmt.Sprintf("data seq=%d from=%d topic=%s content=%s head=%s", m.Data.SeqId, sc.uidx(m.Data.From),
 			sc.tname(m.Data.Topic), strings.ReplaceAll(vNum(m.Data.Content), " ", "_"), sc.headStr(m.Data.Head))
 	case m.Info != nil:
-		return "info " + m.Info.What
+		src := "-"
+		if m.Info.Src != "" {
+			src = sc.tname(m.Info.Src)
+		}
+		return fmt.Sprintf("info what=%s from=%d seq=%d topic=%s src=%s", m.Info.What, sc.uidx(m.Info.From), m.Info.SeqId,
+			sc.tname(m.Info.Topic), src)
 	case m.Pres != nil:
 		return "pres " + m.Pres.What
 	case m.Meta != nil:
@@ -366,6 +374,13 @@ func (sc *fScn) op(w []string) {
 			head = `,"head":{` + strings.Join(ps, ",") + `}`
 		}
 		send(`{"pub":{` + pid + `"topic":"` + tn + `","content":` + a[5] + ne + head + `}` + extra + `}`)
+	case "note":
+		// note <s> <as> <spelling> <what> <seq>
+		seq := ""
+		if a[4] != "0" {
+			seq = `,"seq":` + a[4]
+		}
+		send(`{"note":{"topic":"` + tn + `","what":"` + a[3] + `"` + seq + `}` + extra + `}`)
 	case "clog":
 		if !sc.clogged[si] {
 			vs.s.stop <- nil
